@@ -945,6 +945,121 @@ def stale_tail_pairs(rng):
     return pairs
 
 
+def model_step_cases(rng, n):
+    """scripts aimed at the case splits of coq/Handshake.v: the retry counters (a fitting reply at attempt k, after k-1 time-outs /
+    empty / error replies), whole autodetect sequences answered step by step, the probe search answered for a size limit"""
+    out = []
+    d = L.DOWNCODECCHECK1
+    pats = [b'aAbBcCdDeEfFgGhHiIjJkKlLmMnNoOpPqQrRsStTuUvVwWxXyYzZ+0129-', b'aAbBcCdDeEfFgGhHiIjJkKlLmMnNoOpPqQrRsStTuUvVwWxXyYzZ_0129-',
+            b'aA-Aaahhh-Drink-mal-ein-J\xe4germeister-', b'aA-La-fl\xfbte-na\xefve-fran\xe7aise-est-retir\xe9-\xe0-Cr\xe8te',
+            b'aAbBcCdDeEfFgGhHiIjJkKlLmMnNoOpPqQrRsStTuUvVwWxXyYzZ', b'aA0123456789' + bytes(range(0o274, 0o320)), b'aA' + bytes(range(0o320, 0o376))]
+
+    def nx(ch):       # an error reply that fits: NXDOMAIN, no answer
+        return ('@', L.reply(0, ch, L.T_NULL, [], flags=0x8403))
+
+    def filler(ch):
+        k = rng.randrange(5)
+        return ['T', ('@', L.data_reply(0, ch, L.T_TXT, b'', denc=ord('T'))), ('', L.data_reply(0, ch, L.T_NULL, b'zz')),
+                ('=', L.data_reply(0, ord('q'), L.T_NULL, b'zz')), 'T'][k]
+
+    def probe_reply(fs, limit, corrupt=False):
+        if fs > limit:
+            return 'T'
+        body = bytearray(fs)
+        body[0], body[1] = fs >> 8, fs & 0xff
+        if fs > 2:
+            body[2] = 107
+        v = rng.randrange(256)
+        for i in range(3, fs):
+            body[i] = v
+            v = (v + 107) & 0xff
+        if corrupt and fs > 40:
+            body[33] ^= 0x20
+        return ('@', L.data_reply(0, ord('r'), L.T_NULL, bytes(body)))
+
+    for _ in range(n):
+        kind = rng.randrange(8)
+        qt = rng.choice([10, 65399, 16, 33, 15, 5, 1])
+        kw = dict(qtype=qt, uid=rng.randrange(16), lazy=rng.randrange(2), downenc=32, seed=rng.randrange(1 << 31))
+        if kind == 0:      # retry counters of the five-attempt steps
+            step = rng.choice(['version', 'switch_codec', 'switch_downenc', 'try_lazy', 'lazyoff', 'set_fragsize'])
+            ch = ord(L.STEP_CHAR[step])
+            good = {'version': b'VACK' + bytes(rng.randrange(256) for _ in range(5)), 'switch_codec': b'Base64', 'switch_downenc': b'Base64',
+                    'try_lazy': b'Lazy', 'lazyoff': b'Immediate', 'set_fragsize': b'\x04\xb0'}[step]
+            items = [filler(ch) if rng.randrange(3) else nx(ch) for _ in range(rng.randrange(7))] + [('@', L.data_reply(0, ch, L.T_NULL, good))] + ['T'] * 3
+            out.append(L.hs_case(step, arg={'switch_codec': rng.choice([5, 6, 26, 7, 8]), 'set_fragsize': 1200}.get(step, 0), items=items, **kw))
+        elif kind == 1:    # three-attempt tests
+            step = rng.choice(['edns0', 'downenctest', 'upenctest', 'qtypetest'])
+            ch = ord(L.STEP_CHAR[step])
+            a = rng.randrange(7) if step == 'upenctest' else (rng.choice([1, 2, 3]) if step == 'qtypetest' else ord('S'))
+            good = (b'zabc' + (pats[[0, 1, 2, 3, 4, 5][a]] if a < 6 else b'aA')) if step == 'upenctest' else d
+            if rng.randrange(4) == 0:
+                good = good[:-1] + bytes([good[-1] ^ 1])
+            items = [filler(ch) if rng.randrange(3) else nx(ch) for _ in range(rng.randrange(5))] + [('@', L.data_reply(0, ch, L.T_NULL, good))] + ['T'] * 3
+            out.append(L.hs_case(step, arg=a, items=items, **kw))
+        elif kind == 2:    # upstream autodetect answered pattern by pattern; some patterns fail / swap case / are lost
+            order = [2, 3, 4, 5, 6, 0, 1]
+            items = []
+            for k in order:
+                r = rng.randrange(10)
+                if r < 6:
+                    items.append(('@', L.data_reply(0, ord('z'), L.T_NULL, b'zabc' + pats[k])))
+                elif r == 6:
+                    items.append(('@', L.data_reply(0, ord('z'), L.T_NULL, b'zabc' + pats[k].lower())))
+                elif r == 7:
+                    items.append(('@', L.data_reply(0, ord('z'), L.T_NULL, b'zabc' + pats[k][:-2] + b'xx')))
+                elif r == 8:
+                    items += ['T', 'T', 'T']
+                else:
+                    items.append(nx(ord('z')))
+            out.append(L.hs_case('upenc_auto', items=items, **kw))
+        elif kind == 3:    # downstream autodetect
+            items = []
+            for _k in range(4):
+                r = rng.randrange(6)
+                items += [[('@', L.data_reply(0, ord('y'), L.T_NULL, d))], [('@', L.data_reply(0, ord('y'), L.T_NULL, d))],
+                          [('@', L.data_reply(0, ord('y'), L.T_NULL, d[:40]))], ['T', 'T', 'T'], [nx(ord('y'))], ['T', ('@', L.data_reply(0, ord('y'), L.T_NULL, d))]][r]
+            out.append(L.hs_case('downenc_auto', items=items, **kw))
+        elif kind == 4:    # query type autodetect: which (type, round) answers
+            items = []
+            works = {(t, r) for t in range(7) for r in range(3) if rng.randrange(4) == 0}
+            for _k in range(21):
+                items.append(rng.choice([('@', L.data_reply(0, ord('y'), L.T_NULL, d)), 'T', 'T', nx(ord('y')), ('@', L.data_reply(0, ord('y'), L.T_NULL, d[:30]))]))
+            out.append(L.hs_case('qtype_auto', items=items, **dict(kw, qtype=0)))
+        else:              # fragment size search under a size limit / with corruption / with wrong acks
+            limit = rng.choice([100, 200, 300, 512, 700, 1200, 1500, 4000, 2, 3, 50])
+            prop, rngw, mx = 768, 768, 0
+            items = []
+            corrupt_at = rng.choice([None, None, None, 1, 3])
+            step_no = 0
+            while rngw > 0 and (rngw >= 8 or mx < 300) and step_no < 16:
+                step_no += 1
+                r = rng.randrange(10)
+                pre = []
+                if r == 0:
+                    pre = ['T']
+                elif r == 1:
+                    pre = [('@', L.data_reply(0, ord('r'), L.T_NULL, b'BADIP'))]
+                elif r == 2:
+                    pre = [probe_reply(max(3, prop - 1), 5000)]      # an ack for another size
+                it = probe_reply(prop, limit, corrupt=(corrupt_at == step_no))
+                items += pre
+                if it == 'T':
+                    items += ['T'] * (3 - len(pre))
+                    ok = False
+                else:
+                    items.append(it)
+                    ok = True
+                    if corrupt_at == step_no and prop > 40:
+                        break
+                if ok:
+                    mx = prop
+                rngw >>= 1
+                prop = prop + rngw if ok else prop - rngw
+            out.append(L.hs_case('autoprobe', items=items + ['T'] * 4, **kw))
+    return out
+
+
 def login_pairs(rng):
     """(c): an unterminated login reply R alone, and R after a longer reply that is not a login
     reply: a client that parses only the bytes of R sets the same tunnel parameters both times"""
@@ -1089,6 +1204,30 @@ def stream_handshake(rep, ctx, findings):
                              dict(kind='input', driver='hf', case=a, baseline_case=b, observed=ra[:300], expected=rb[:300], stream='handshake-step'))
                 break
         rep.cov['handshake_stale_tail_pairs'] = len(spairs)
+    # (1d) the sequencing model (coq/Handshake.v, extracted): every scripted step the model covers must end in the same state,
+    #      with the same return value, number of queries sent and number of script items left
+    if 'hf' in ctx.exe and getattr(ctx, 'model_hs', None):
+        mc = list(hcases)
+        for prs in (locals().get('upairs') or [], locals().get('spairs') or []):
+            mc += [c for pr in prs for c in pr[:2]]
+        mc += model_step_cases(rng, 40 if rep.tier == 'quick' else 400)
+        rc, il, err = run_std(ctx.exe['hf'], mc, ctx.work, 'hsm-impl')
+        rc2, ml, err2 = run_std(ctx.model_hs, mc, ctx.work, 'hsm-model', timeout=900)
+        ncmp = 0
+        per = {}
+        for c, a, b in zip(mc, il, ml):
+            if b == 'SKIP' or a.startswith('BAIL') or a == '<NO-OUTPUT>':
+                continue
+            ncmp += 1
+            st = c.split()[1]
+            per[st] = per.get(st, 0) + 1
+            if a != b:
+                ctx.broken.append(('correspondence:handshake-step', 'handshake sequencing model and implementation disagree on %r: impl=%r model=%r' % (
+                    c[:300], a[:200], b[:200])))
+                findings.diff_cases.append(('hf', c))
+                break
+        rep.cov['handshake_model_agreement'] = ncmp
+        rep.cov['handshake_model_steps'] = per
     # (2) stale bytes of an earlier reply parsed as part of the login reply
     if 'hf' in ctx.exe:
         for a, b in login_pairs(rng):
@@ -1187,6 +1326,10 @@ def check(rep):
     if not ok:
         ctx.broken.append(('extraction:CLI', 'client model extraction / driver build failed: ' + lg[-300:]))
         model_cli = None
+    ok, ctx.model_hs, lg = vlib.build_model_driver('HS')
+    if not ok:
+        ctx.broken.append(('extraction:HS', 'handshake model extraction / driver build failed: ' + lg[-300:]))
+        ctx.model_hs = None
     rep.cov['setup_wall_s'] = round(time.time() - t0, 1)
     rep.cov['rule'] = ('corpus first; three streams (decoder A-cases, tunnel histories + matched hostile replies, handshake: single steps with '
                        'scripted replies + whole handshakes through a fuzzing relay against the real server); implementation first '
@@ -1213,7 +1356,8 @@ def check(rep):
     rep.cov['trusted_base'] = rep.cov.get('trusted_base', []) + [
         'gcc 12 -O1 -fsanitize=address,undefined (ASan halts; UBSan recovers in the handshake builds so that all reports are collected)',
         'zlib contract: compress2 with *destLen = 64K reports at most 64K (hypothesis of C06_state_bounds)',
-        'the handshake functions of client.c have no Coq model: sanitizer observation only']
+        'handshake functions of client.c: the retry / time-out sequencing of the steps built on handshake_waitdns is modelled (coq/Handshake.v) and '
+        'compared on scripted replies; handshake_login, the raw-UDP login and client_handshake as a whole are observed by sanitizers only']
     for key in findings.order:
         what, replay = findings.items[key]
         if replay.get('driver', '').startswith('hf') and key.startswith(('ubsan:', 'asan:')) and replay.get('case'):
